@@ -1,8 +1,8 @@
 (* State.v -- what survives between API calls, and the three entry points as
    steps over it (internal/reflect/reflect.go, desc.go createStructDesc /
    newStructDescAndPrefetch / fetchStructDesc with the caches sds, ttypes
-   node links, prefetchStructDescCache and the pending log that undoes a
-   failed build), plus the legacy JIT-era controls (frugal.go, options.go).
+   node links, prefetchStructDescCache and the pending log from which
+   rollbackPending undoes a failed build), plus the legacy JIT-era controls (frugal.go, options.go).
    The pools (decoder, bitset, unknown-field index, map temporaries, by-value
    argument copies) carry arbitrary left-over content. *)
 From Coq Require Import List NArith Bool.
@@ -10,6 +10,9 @@ From Frugal Require Import Bytes Wire Values Desc Spec Encode Decode Tags Legacy
 From Frugal.gen Require Import Params Legacy.
 Import ListNotations.
 Open Scope N_scope.
+
+(* delete every id of [ids] from a cache / unlink every node of [ids] *)
+Definition remove_ids (ids l : list N) : list N := filter (fun x => negb (memN x ids)) l.
 
 Section WithUniverse.
   Variable gu : list gostruct.
@@ -28,29 +31,38 @@ Section WithUniverse.
     match nth_error ru (N.to_nat s) with Some (Some _) => true | _ => false end.
 
   (* newStructDescAndPrefetch / prefetchSubStructDesc / fetchStructDesc.
-     pend: (types cached, nodes linked) during this createStructDesc call.
-     Returns None when some definition fails to resolve. *)
+     pend: (types cached, nodes linked) during this createStructDesc call
+     (pendingTypes, pendingNodes).  Always returns the state reached and the
+     log, with a success flag.  When some definition fails to resolve the
+     traversal stops where it is: what was cached and linked so far stays (it
+     is the rollback that undoes it), except that the struct whose sub-build
+     failed deletes its own cache entry on the way up
+       if err := prefetchSubStructDesc(sd); err != nil {
+           delete(prefetchStructDescCache, t); return nil, err }
+     (its id stays in the log), and the rest of [todo] is not visited. *)
   Fixpoint prefetch (fuel : nat) (r : reg) (pend : list N * list N) (todo : list N)
-    : option (reg * (list N * list N)) :=
+    : reg * (list N * list N) * bool :=
     match fuel with
-    | O => Some (r, pend)
+    | O => (r, pend, true)
     | S fuel' =>
         match todo with
-        | [] => Some (r, pend)
+        | [] => (r, pend, true)
         | s :: rest =>
             if memN s (r_node r) then prefetch fuel' r pend rest         (* t.Sd != nil: trusted as complete *)
             else if memN s (r_pre r) then
               (* cache hit: link the node, do not descend *)
               prefetch fuel' (mkReg (r_pub r) (r_pre r) (s :: r_node r)) (fst pend, s :: snd pend) rest
-            else if negb (resolves s) then None
+            else if negb (resolves s) then (r, pend, false)
             else
               (* new descriptor: cache it, descend into its struct-typed fields, then link the node *)
-              match prefetch fuel' (mkReg (r_pub r) (s :: r_pre r) (r_node r)) (s :: fst pend, snd pend)
-                             (mentions ru s) with
-              | None => None
-              | Some (r1, pend1) =>
-                  prefetch fuel' (mkReg (r_pub r1) (r_pre r1) (s :: r_node r1)) (fst pend1, s :: snd pend1) rest
-              end
+              let '(r1, pend1, ok1) :=
+                prefetch fuel' (mkReg (r_pub r) (s :: r_pre r) (r_node r)) (s :: fst pend, snd pend)
+                         (mentions ru s) in
+              if ok1 then
+                prefetch fuel' (mkReg (r_pub r1) (r_pre r1) (s :: r_node r1)) (fst pend1, s :: snd pend1) rest
+              else
+                (* the sub-build failed: delete(prefetchStructDescCache, t), propagate the error *)
+                (mkReg (r_pub r1) (remove_ids [s] (r_pre r1)) (r_node r1), pend1, false)
         end
     end.
 
@@ -59,17 +71,23 @@ Section WithUniverse.
   Definition prefetch_fuel : nat :=
     S (length gu + length (flat_map (fun s => mentions ru (N.of_nat s)) (seq 0 (length gu)))).
 
-  (* createStructDesc: on failure everything recorded in the pending log is undone *)
+  (* rollbackPending: delete exactly the logged cache entries and unlink exactly
+     the logged nodes; the published descriptors are not touched *)
+  Definition rollback (r : reg) (pend : list N * list N) : reg :=
+    mkReg (r_pub r) (remove_ids (fst pend) (r_pre r)) (remove_ids (snd pend) (r_node r)).
+
+  (* createStructDesc: on failure everything recorded in the pending log is undone
+     (on success commitPending just empties the log) *)
   Definition create (r : reg) (s : N) : reg * bool :=
     if memN s (r_pub r) then (r, true)
     else if memN s (r_pre r) then (mkReg (s :: r_pub r) (r_pre r) (r_node r), true)
     else if negb (resolves s) then (r, false)
     else
-      match prefetch prefetch_fuel (mkReg (r_pub r) (s :: r_pre r) (r_node r)) ([s], [])
-                     (mentions ru s) with
-      | Some (r1, _) => (mkReg (s :: r_pub r1) (r_pre r1) (r_node r1), true)
-      | None => (r, false)                      (* rollbackPending: back to the state before the call *)
-      end.
+      let '(r1, pend1, ok1) :=
+        prefetch prefetch_fuel (mkReg (r_pub r) (s :: r_pre r) (r_node r)) ([s], [])
+                 (mentions ru s) in
+      if ok1 then (mkReg (s :: r_pub r1) (r_pre r1) (r_node r1), true)
+      else (rollback r1 pend1, false).
 
   (* the process: registration state plus pool garbage *)
   Record pstate := mkP { p_reg : reg; p_pool : list N }.
